@@ -16,6 +16,7 @@ CONSTANTS
   LiveRounds = FALSE
   CachePutFails = TRUE
   CrashInCreate = TRUE
+  IssuerEntries = {}
   Stops = TRUE
 INVARIANTS PoolBound StoppedIsQuiet AckPublished AckInLock LeafCount LockAppendOnly
 PROPERTIES OutcomeIsFinal LockStepExtends
